@@ -387,9 +387,18 @@ def run_lines(binary, lines, timeout=600, env=None, args=()):
     if env:
         e.update(env)
     data = ("\n".join(lines) + "\n").encode()
+    pre = None
+    if "_model-" in os.path.basename(binary):
+        # extracted list functions (app, firstn, map) are not tail recursive: give the model a big stack
+        def pre():
+            import resource
+            try:
+                resource.setrlimit(resource.RLIMIT_STACK, (resource.RLIM_INFINITY, resource.RLIM_INFINITY))
+            except (ValueError, OSError):
+                pass
     try:
         r = subprocess.run([binary] + list(args), input=data, stdout=subprocess.PIPE, stderr=subprocess.PIPE,
-                           timeout=timeout, env=e)
+                           timeout=timeout, env=e, preexec_fn=pre)
         return r.stdout.decode(errors="replace").split("\n")[:-1], r.stderr.decode(errors="replace"), r.returncode
     except subprocess.TimeoutExpired as ex:
         out = (ex.stdout or b"").decode(errors="replace").split("\n")[:-1]
